@@ -1,6 +1,7 @@
 """C07 - An IdP never releases attributes beyond what its policy allows."""
 import ast
 
+from ..match import facts, Q
 from ..srcmodel import attr_chain, call_name, unparse, norm_text, walk_no_nested
 from ..cfg import cfg_of, CFG
 from ..dataflow import Origins
@@ -190,8 +191,8 @@ def r3_filters_narrow(run):
     apps = [(nd, c) for nd, c in cfg.call_nodes("append")
             if attr_chain(c.func) == "rvals.append"]
     for nd, c in apps:
-        gs = {(unparse(e), p) for e, p, _ in cfg.guards(nd.id)}
-        run.check(("restr.match(val)", True) in gs and
+        gs = facts(cfg, nd.id)
+        run.check(Q("restr.match(val)", True) in gs and
                   unparse(arg_of(c, 0)) == "val", "R3",
                   fi.qual + "::value-kept-iff-match",
                   "a value is kept only if a restriction pattern matches it",
@@ -199,8 +200,7 @@ def r3_filters_narrow(run):
     run.floor("R3", "rvals.append sites", len(apps), 1)
     dels = [nd for nd in cfg.by_kind("stmt") if isinstance(nd.ast, ast.Delete)
             and unparse(nd.ast.targets[0]) == "ava[attr]"]
-    run.check(any(("rvals", False) in {(unparse(e), p) for e, p, _ in
-                                       cfg.guards(d.id)} for d in dels), "R3",
+    run.check(any(Q("rvals", False) in facts(cfg, d.id) for d in dels), "R3",
               fi.qual + "::no-value-left=>deleted",
               "an attribute with no matching value is deleted",
               "attributes whose values all fail the patterns are kept", fi.loc())
@@ -217,8 +217,8 @@ def r3_filters_narrow(run):
     fv = m.func("assertion._filter_values")
     vcfg = cfg_of(fv, m)
     for nd, c in vcfg.call_nodes("append"):
-        gs = {(unparse(e), p) for e, p, _ in vcfg.guards(nd.id)}
-        run.check(("val in vals", True) in gs, "R3",
+        gs = facts(vcfg, nd.id)
+        run.check(Q("val in vals", True) in gs, "R3",
                   fv.qual + "::" + norm_text(c),
                   "kept only if the subject actually has the value",
                   "value appended under %s" % sorted(gs), fv.loc(c))
@@ -254,8 +254,7 @@ def r3_filters_narrow(run):
     fd = m.func("assertion.filter_on_demands")
     dcfg = cfg_of(fd, m)
     dels = [nd for nd in dcfg.by_kind("stmt") if isinstance(nd.ast, ast.Delete)]
-    ok = any(("attr not in oka", True) in {(unparse(e), p) for e, p, _ in
-                                           dcfg.guards(d.id)} for d in dels)
+    ok = any(Q("attr not in oka", True) in facts(dcfg, d.id) for d in dels)
     run.check(ok, "R3", fd.qual + "::unasked=>deleted",
               "attributes nobody asked for are deleted",
               "filter_on_demands no longer deletes unasked attributes", fd.loc())
